@@ -179,6 +179,26 @@ static inline double ll2c_uf_fsub_f64(double a, double b) { return __CPROVER_uni
 static inline float ll2c_uf_fdiv_f32(float a, float b) { return __CPROVER_uninterpreted_fdiv_f32(a, b); }
 static inline double ll2c_uf_fdiv_f64(double a, double b) { return __CPROVER_uninterpreted_fdiv_f64(a, b); }
 #endif
+#ifdef LL2C_CBMC
+u64 __CPROVER_uninterpreted_ll2c_imul(u64, u64, u64);
+u64 __CPROVER_uninterpreted_ll2c_udiv(u64, u64, u64);
+u64 __CPROVER_uninterpreted_ll2c_urem(u64, u64, u64);
+u64 __CPROVER_uninterpreted_ll2c_sdiv(u64, u64, u64);
+u64 __CPROVER_uninterpreted_ll2c_srem(u64, u64, u64);
+static inline u64 ll2c_ufi_mul(u64 n, u64 a, u64 b) { return a <= b ? __CPROVER_uninterpreted_ll2c_imul(n, a, b) : __CPROVER_uninterpreted_ll2c_imul(n, b, a); }
+#define ll2c_ufi_udiv __CPROVER_uninterpreted_ll2c_udiv
+#define ll2c_ufi_urem __CPROVER_uninterpreted_ll2c_urem
+#define ll2c_ufi_sdiv __CPROVER_uninterpreted_ll2c_sdiv
+#define ll2c_ufi_srem __CPROVER_uninterpreted_ll2c_srem
+#define LL2C_UFI(op, n, a, b) ll2c_ufi_##op((u64)(n), (a), (b))
+#else
+static inline u64 ll2c_nat_mul(unsigned n, u64 a, u64 b) { return a * b; }
+static inline u64 ll2c_nat_udiv(unsigned n, u64 a, u64 b) { return b ? a / b : 0; }
+static inline u64 ll2c_nat_urem(unsigned n, u64 a, u64 b) { return b ? a % b : 0; }
+static inline u64 ll2c_nat_sdiv(unsigned n, u64 a, u64 b) { s64 x = n >= 64 ? (s64)a : (s64)((a ^ (1ull << (n - 1))) - (1ull << (n - 1))), y = n >= 64 ? (s64)b : (s64)((b ^ (1ull << (n - 1))) - (1ull << (n - 1))); return (y == 0 || (y == -1 && x == (s64)(1ull << 63))) ? 0 : (u64)(x / y); }
+static inline u64 ll2c_nat_srem(unsigned n, u64 a, u64 b) { s64 x = n >= 64 ? (s64)a : (s64)((a ^ (1ull << (n - 1))) - (1ull << (n - 1))), y = n >= 64 ? (s64)b : (s64)((b ^ (1ull << (n - 1))) - (1ull << (n - 1))); return (y == 0 || y == -1) ? 0 : (u64)(x % y); }
+#define LL2C_UFI(op, n, a, b) ll2c_nat_##op((n), (a), (b))
+#endif
 /* clause-side spellings of the same abstraction (plain arithmetic natively) */
 #define SPEC_FADD32(a, b) LL2C_UF2(fadd_f32, +, (float)(a), (float)(b))
 #define SPEC_FSUB32(a, b) LL2C_UF2(fsub_f32, -, (float)(a), (float)(b))
